@@ -29,8 +29,10 @@ theorem C06_step (guard : SplitGuard) (s : State) (Ls : Ledgers) (op : Op)
   cases hc : chargedUsages s op with
   | some x =>
     obtain ⟨supi', trigs, groups, us⟩ := x
-    simp only [hc] at hok hcomp ⊢
+    simp only [hc, Bool.and_eq_true] at hok hcomp ⊢
+    obtain ⟨⟨hau, hru⟩, hok⟩ := hok
     obtain ⟨ha, hg, hgo, hgs⟩ := charged_step (guard := guard) hc
+    simp only [seenAccts, seenTariffs, acctsAfter, hau, hru, if_true] at ha hg hcomp ⊢
     have hB' := hB supi'
     rw [hgs] at hB'
     obtain ⟨b1, n1⟩ := creditControl_safe s.tariffs supi' trigs us s.accts groups (ledgerOf Ls supi') hok hcomp hB' hN
